@@ -660,8 +660,18 @@ def plottable_case(draw, tier):
         for s in sl:
             if s is not None:
                 s['src'] = 'cov'
-    return {'slices': sl, 'pad': [draw(st.sampled_from([0, 0, 1, 3])), draw(st.sampled_from([0, 0, 2]))],
+    spec = {'slices': sl, 'pad': [draw(st.sampled_from([0, 0, 1, 3])), draw(st.sampled_from([0, 0, 2]))],
             'array': draw(st.booleans())}
+    if src == 'mc' and draw(st.booleans()):
+        # the observables of the timeslices are analysed again with other parameters between two calls of plottable():
+        # the view has to show the errors the observables carry *now* (C19-m21: memoised view)
+        arn = draw(st.integers(30, 60))   # all timeslices of a correlator live on the same configurations
+        for s in sl:
+            if s is not None:
+                s.pop('z', None)
+                s['ar'] = {'seed': draw(st.integers(0, 2 ** 31 - 1)), 'n': arn, 'rho': draw(gen.fl(0.0, 0.9))}
+        spec['again'] = {'how': draw(st.sampled_from(['corr', 'gm_list', 'slice', 'before'])), 'S': draw(st.sampled_from([0.0, 1.0, 4.0]))}
+    return spec
 
 
 def plottable_oracle(spec):
@@ -681,6 +691,41 @@ def plottable_oracle(spec):
     require(c.T == len(ref) + sum(spec['pad']), 'T of the correlator', c.T)
     holes = any(s is None for s in spec['slices'])
     cls = ['src:' + next(s['src'] for s in spec['slices'] if s is not None), 'T:%d' % len(ref)]
+    ag = spec.get('again')
+    if ag:
+        S = float(ag['S'])
+        if ag['how'] == 'before':
+            # a first look at the view before any analysis (refused or not), then the analysis
+            obs2 = [None if s is None else mk_obs(s, 'cv', analyse=False) for s in spec['slices']]
+            c = pe.Corr(obs2, padding=list(spec['pad']))
+            try:
+                c.plottable()
+            except Exception:
+                pass
+            c.gamma_method(S=S)
+        elif ag['how'] == 'corr':
+            c.gamma_method(S=S)
+        elif ag['how'] == 'gm_list':
+            pe.gm([o[0] for o in c.content if o is not None], S=S)
+        else:
+            for o in c.content:
+                if o is not None:
+                    o[0].gamma_method(S=S)
+        x2, y2, dy2 = c.plottable()
+        ref2 = []
+        for s in spec['slices']:
+            if s is not None:
+                r = mk_obs(s, 'cv', analyse=False)
+                r.gamma_method(S=S)
+                ref2.append(r)
+        wd2 = [float(r.dvalue) for r in ref2]
+        require(list(x2) == wx and len(y2) == len(wy) and all(float(p) == q for p, q in zip(y2, wy)),
+                'plottable() after a second analysis (%s): slices / values %r %r, expected %r %r' % (ag['how'], list(x2), list(y2), wx, wy))
+        require(len(dy2) == len(wd2) and all(float(p) == q for p, q in zip(dy2, wd2)),
+                'plottable() after the observables were analysed again with S=%g (%s): errors %r, the observables carry %r' % (S, ag['how'], list(dy2), wd2))
+        cls.append('again:' + ag['how'])
+        if wd2 != wd:
+            cls.append('again_changed_the_errors')
     if holes:
         cls.append('undefined_slices')
     if sum(spec['pad']):
